@@ -111,6 +111,9 @@ def isoformat(dt: datetime.date | datetime.time | datetime.timedelta) -> str:
     """
     if isinstance(dt, (datetime.date, datetime.time)):
         return dt.isoformat()
+    # A negative duration is written as the negated positive duration.
+    if dt < datetime.timedelta(0):
+        return f"-{isoformat(-dt)}"
     dur: pendulum.Duration = (
         dt
         if isinstance(dt, pendulum.Duration)
@@ -223,6 +226,8 @@ def dateparse(val: str, t: type[DateTimeT]) -> DateTimeT:
             If `val` is not a date string or does not resolve to an instance of
             the target datetime type.
     """
+    if val.startswith("-P") and issubclass(t, datetime.timedelta):
+        return -dateparse(val[1:], t)
     try:
         # When `exact=False`, the only two possibilities are DateTime and Duration.
         parsed: pendulum.DateTime | pendulum.Duration = pendulum.parse(val)  # type: ignore[assignment]
